@@ -78,6 +78,33 @@ theorem C06_ignore_others (t : Nat) (h : HState) (r : Resp) (hr : r.isBlock = fa
   unfold handle
   rw [(decision_ignore_iff t r).mpr hr]
 
+/-- **Retried with other peers.**  The dispatcher keeps handing responses to the
+handler until the handler says `Finished` (`cont = false`: it stops there).  If
+the header is known, nothing is cached under the key, the dispatcher reports
+success, and the stream contains a valid requested block at all, then the call
+returns the FIRST such block — however many responses before it were ignored or
+got their senders banned: a bad answer never ends the request.  (The senders of
+the bad answers before it are banned all the same, `C06_ban_iff`.) -/
+theorem C06_retry_after_ban (s : State) (c : Call) (r : Resp) (hk : c.known = true)
+    (hmiss : ∀ e ∈ s.cache.items, e.key ≠ keyOf c.target c.base)
+    (hv : c.verdict = .nil) (hc : c.cont = false)
+    (hr : c.resps.find? (fun x => decide (x.isBlock = true ∧ x.hdr = c.target ∧ x.sane = true ∧ x.wit = true)) = some r) :
+    (getBlock s c).result = .ret r.rid := by
+  have hr' : c.resps.find? (fun x => decide (decision c.target x = .accept)) = some r := by
+    rw [← hr]; congr 1; funext x; simp only [decision_accept_iff]
+  rw [getBlock_miss s c hk (spec_get_miss_of_nokey hmiss)]
+  unfold afterQuery
+  simp only [hv, hc, feed_first_accept c.target c.resps r _ hr']
+
+/-- three peers: the first sends the requested header with a forged witness
+commitment (banned), the second another block (ignored), the third the valid
+block: it is returned, and peer 1 is banned. -/
+example : (getBlock (init 1000) (Call.mk 7 true false [⟨1, true, 5, 7, true, true, false, 300⟩,
+      ⟨2, true, 9, 8, true, true, true, 300⟩, ⟨3, true, 6, 7, true, true, true, 300⟩] false .nil)).result = .ret 6 ∧
+    (getBlock (init 1000) (Call.mk 7 true false [⟨1, true, 5, 7, true, true, false, 300⟩,
+      ⟨2, true, 9, 8, true, true, true, 300⟩, ⟨3, true, 6, 7, true, true, true, 300⟩] false .nil)).st.bans = [1] := by
+  decide
+
 /-- **Fail closed.**  If the cache has nothing under the key and no response of
 the stream is the requested valid block, or the dispatcher does not report
 success, the call reports failure — whatever else the peers sent — and the cache
